@@ -39,9 +39,10 @@ func runC16(c *Ctx) {
 		"(text) the text is exactly `S-` %d `-` %d followed by count × (`-` %d) — or the same with the revision written as the literal 1 — : single dashes, decimal verbs, no other literal; " +
 		"(lanes) the first printed value is the constant 1 the guard enforces for byte 0, the second is bytes 2..7 big-endian into 48 bits, and the k-th following one is the 32-bit little-endian word at offset 8+4k, for every count and every k < count. " +
 		"A run that stops at a construct the interpreter does not model is reported NOT DECIDED (discharged with a note) — it is no evidence of a violation; a run that stops because an index would be out of range, or because a branch depends on data bytes, is undecided (= violation). " +
-		"GetDomainFromDistinguishedName is decided on the TEMPLATE of its result (internal/strtmpl: literals, values, repetitions produced by counted loops through `acc += …`, append + strings.Join, append to a byte buffer + string(b), or writes to a strings.Builder / bytes.Buffer, which is put into SSA form on the fly; `(v + sep)*` + TrimSuffix, `(sep + v)*` + TrimPrefix and `if n > 0 { sep }; v; n++` — n shown to count exactly the values written — are recognised as joins): " +
+		"GetDomainFromDistinguishedName is decided on the TEMPLATE of its result (internal/strtmpl: literals, values, repetitions produced by counted loops through `acc += …`, append + strings.Join, append to a byte buffer + string(b), or writes to a strings.Builder / bytes.Buffer, which is put into SSA form on the fly; `(v + sep)*` + TrimSuffix, `(sep + v)*` + TrimPrefix and `if n > 0 { sep }; v; n++` / `if !first { sep }; first = false; v` — the counter or flag shown to change exactly where a value is written — are recognised as joins; a loop body that is a CLOSURE — the synthetic yield function of a range-over-func loop over an in-module iterator (a function literal, a function or method returning one, iter.Seq or iter.Seq2), or a callback handed to an in-module function — is read through: the iterator is evaluated to the template of its yield calls and the closure to the text one call appends to the captured strings.Builder / string / []string variable, with captured counters and flags decided on the closure; slices.Collect / AppendSeq of such an iterator is the list of its yields): " +
 		"(dn join) the result is a join with the constant separator \".\" of elements produced by forward loops over the decomposed DN; (dn filter) an element is produced only under a test that the attribute type of the SAME component equals the constant DC (case-insensitively or in AD's upper-case spelling; the test may sit in an in-module helper that is a single `return <test>`) and the element is that component's value (for prefix-style code: the same constant is tested and removed); " +
 		"(dn decomposition) the DN is decomposed by an escape-aware parser (go-ldap ParseDN): splitting on \",\" mis-parses the `\\,` that AD emits inside RDN values; (dn order) components are visited by increasing index. " +
+		"COMPLETENESS BEFORE VERDICT: a mismatch is reported only for a construction that was read completely — a separator other than \".\", a separator written before the first / after the last element, a counter that also counts filtered-out components, a flag tested the wrong way round or never cleared, a type test for something other than DC, the wrong field kept, strings.Split on the DN. A construction this rule does not read (an iterator from outside the module, a break inside the loop body, the result of a call that is not entered, an additional test it does not interpret, a value it cannot trace back to ParseDN) leaves the condition NOT DECIDED (discharged, with a note); the four dn conditions are always recorded, so the floor never adds a second report. For ParseSIDFromBytes an aborted abstract run is a violation only when the interpreter saw the well-formed input make the code fail (an index or slice bound out of range, a nil dereference, an explicit panic); every other abort, an opaque result text and lost lanes are NOT DECIDED. " +
 		"(callers) every in-module caller of ParseSIDFromBytes passes a []byte obtained from GetRawAttributeValue, every caller of GetDomainFromDistinguishedName a string attribute value — recorded, not a rule that can fail on its own. " +
 		"NOT DECIDED: the numeric formatting inside fmt / strconv (%d of uint64/uint32/int), the MS-DTYP hexadecimal form of authorities ≥ 2^32, rejection of counts > 15 or of trailing bytes, what ParseDN accepts, DNS name normalisation (case, trailing dots), LDAP search behaviour in objects.go / rid.go."
 	r.Assumptions = append(r.Assumptions,
@@ -263,7 +264,11 @@ func c16SID(c *Ctx, w *prove.World) {
 		case len(is.fails) > 0:
 			r.Fail(c16RLane, construct, pos, strings.Join(c20Dedup(is.fails)[:min(3, len(c20Dedup(is.fails)))], " | "))
 		case len(is.unds) > 0:
-			r.Undecided(c16RLane, construct, pos, strings.Join(c20Dedup(is.unds)[:min(3, len(c20Dedup(is.unds)))], " | "))
+			// some lanes of the printed value were lost by the interpreter (⊤): a limit of
+			// the abstraction, not an observed mismatch
+			why := strings.Join(c20Dedup(is.unds)[:min(3, len(c20Dedup(is.unds)))], " | ")
+			r.OK(c16RLane, construct, pos, "NOT DECIDED — the interpreter lost lanes of the printed value: "+why)
+			r.Note("C16 %s: lanes NOT DECIDED — %s", construct, why)
 		case is.seen == 0 && len(notDecided) > 0:
 			r.OK(c16RLane, construct, pos, "NOT DECIDED — no text was obtained (see the notes)")
 		case is.seen == 0:
@@ -379,6 +384,31 @@ func c16DN(c *Ctx) {
 	r.OK("anchor", name, p.Rel(fn.Pos()), "resolved: func(string) string")
 	var ex lanes.Analyzer
 	pos := p.Rel(fn.Pos())
+	// The four conditions of the dn rule (join, filter, decomposition, order) are
+	// the ENTITIES its floor counts: whichever of them is not reached — because an
+	// earlier one failed, or because the construction of the result has a shape
+	// this rule does not read — is recorded NOT DECIDED, so that the floor never
+	// turns a gap of the extraction into a second report.
+	before := r.Counts[c16RDN]
+	stopped := ""
+	defer func() {
+		names := map[string]bool{}
+		for _, o := range r.Obls {
+			if o.Rule == c16RDN {
+				names[o.Construct] = true
+			}
+		}
+		_ = before
+		for _, k := range []string{"join", "filter", "decomposition", "order"} {
+			if !names[name+": "+k] {
+				why := "not evaluated"
+				if stopped != "" {
+					why += ": " + stopped
+				}
+				r.OK(c16RDN, name+": "+k, pos, "NOT DECIDED — "+why)
+			}
+		}
+	}()
 	var mains []*ssa.Return
 	for _, b := range fn.Blocks {
 		if rt, ok := b.Instrs[len(b.Instrs)-1].(*ssa.Return); ok {
@@ -391,8 +421,14 @@ func c16DN(c *Ctx) {
 			mains = append(mains, rt)
 		}
 	}
+	if len(mains) == 0 {
+		r.Undecided(c16RDN, name+": join", pos, "no return builds a text")
+		return
+	}
 	if len(mains) != 1 {
-		r.Undecided(c16RDN, name+": join", pos, fmt.Sprintf("%d returns build a text; exactly one is modelled", len(mains)))
+		stopped = fmt.Sprintf("%d returns build a text; exactly one is modelled", len(mains))
+		r.OK(c16RDN, name+": join", pos, "NOT DECIDED — "+stopped)
+		r.Note("C16 %s: NOT DECIDED — %s", name, stopped)
 		return
 	}
 	rt := mains[0]
@@ -400,15 +436,31 @@ func c16DN(c *Ctx) {
 	ev.InModule = p.InModule // in-module helpers that build the list / the text are entered
 	tmpl, err := ev.String(rt.Results[0])
 	if err != nil {
-		r.Undecided(c16RDN, name+": join", p.Rel(rt.Pos()), "the construction of the result is not modelled: "+err.Error())
+		// the text is assembled in a way internal/strtmpl does not read: nothing
+		// offending was observed, the extraction is incomplete
+		stopped = "the construction of the result is not modelled: " + err.Error()
+		r.OK(c16RDN, name+": join", p.Rel(rt.Pos()), "NOT DECIDED — "+stopped)
+		r.Note("C16 %s: NOT DECIDED — %s", name, stopped)
 		return
 	}
 	// `if n > 0 { write(".") }; write(value); n++` (any buffer, any counter placement that counts exactly the written values) is a join
 	tmpl = ev.Joinify(tmpl)
 	r.Extra["dn_template"] = strtmpl.Describe(tmpl)
+	if strtmpl.Flat(tmpl) {
+		for _, it := range tmpl {
+			if it.Kind == strtmpl.Val {
+				// the text is handed over ready-made by something that was not read
+				stopped = "the result is the value of " + ex.Expr(it.Val) + ", whose construction is not read"
+				r.OK(c16RDN, name+": join", p.Rel(rt.Pos()), "NOT DECIDED — "+stopped)
+				r.Note("C16 %s: NOT DECIDED — %s", name, stopped)
+				return
+			}
+		}
+	}
 	// shape: one join whose only element source is a (possibly nested) loop producing one element under one filter
 	if len(tmpl) != 1 || tmpl[0].Kind != strtmpl.Join || len(tmpl[0].Parts) != 1 {
 		r.Fail(c16RDN, name+": join", p.Rel(rt.Pos()), "the result is not a single join of the DC components: "+strtmpl.Describe(tmpl))
+		stopped = "the result is not a single join (see the join condition)"
 		return
 	}
 	j := tmpl[0]
@@ -435,7 +487,9 @@ func c16DN(c *Ctx) {
 			filters = append(filters, part.Cond)
 		}
 		if len(part.Body) != 1 {
-			r.Undecided(c16RDN, name+": filter", p.Rel(rt.Pos()), "an iteration produces more than one element")
+			stopped = "an iteration produces more than one element"
+			r.OK(c16RDN, name+": filter", p.Rel(rt.Pos()), "NOT DECIDED — "+stopped)
+			r.Note("C16 %s: filter NOT DECIDED — %s", name, stopped)
 			return
 		}
 		part = part.Body[0]
@@ -455,37 +509,54 @@ func c16DN(c *Ctx) {
 
 	// ---- filter
 	c.guard(c16RDN, name+": filter", p.Rel(rt.Pos()), func() {
-		if len(filters) != 1 {
-			r.Fail(c16RDN, name+": filter", p.Rel(rt.Pos()), fmt.Sprintf("%d tests decide whether a component is kept; exactly one test of the attribute type is expected (without one, non-DC components leak into the domain)", len(filters)))
+		if len(filters) == 0 {
+			r.Fail(c16RDN, name+": filter", p.Rel(rt.Pos()), "0 tests decide whether a component is kept; exactly one test of the attribute type is expected (without one, non-DC components leak into the domain)")
 			return
 		}
-		f := &strtmpl.Filter{Cond: filters[0].Cond, Truth: filters[0].Truth}
-		for {
-			u, ok := f.Cond.(*ssa.UnOp)
-			if !ok || u.Op != token.NOT {
-				break
+		// Every test on the way to the element is looked at: one of them must be the
+		// test of the attribute type; a test this rule does not read (an additional
+		// guard, a predicate passed as an opaque value) leaves the condition NOT DECIDED.
+		matched := 0
+		var fails, nds []string
+		for _, flt := range filters {
+			f := &strtmpl.Filter{Cond: flt.Cond, Truth: flt.Truth}
+			for {
+				u, ok := f.Cond.(*ssa.UnOp)
+				if !ok || u.Op != token.NOT {
+					break
+				}
+				f.Cond, f.Truth = u.X, !f.Truth
 			}
-			f.Cond, f.Truth = u.X, !f.Truth
-		}
-		neqAsEq := false
-		if bo, ok := f.Cond.(*ssa.BinOp); ok && bo.Op == token.NEQ && !f.Truth {
-			// kept when a != b is false, i.e. when a == b
-			neqAsEq, f.Truth = true, true
-		}
-		if !f.Truth {
-			r.Fail(c16RDN, name+": filter", p.Rel(rt.Pos()), "the component is kept when the test "+ex.Expr(f.Cond)+" FAILS: every component but the tested kind ends up in the domain")
-			return
-		}
-		ok, why := c16FilterMatches(c, f.Cond, elem, neqAsEq, nil, 0)
-		if why != "" && !ok {
-			if strings.HasPrefix(why, "?") {
-				r.Undecided(c16RDN, name+": filter", p.Rel(rt.Pos()), why[1:])
-			} else {
-				r.Fail(c16RDN, name+": filter", p.Rel(rt.Pos()), why)
+			neqAsEq := false
+			if bo, ok := f.Cond.(*ssa.BinOp); ok && bo.Op == token.NEQ && !f.Truth {
+				// kept when a != b is false, i.e. when a == b
+				neqAsEq, f.Truth = true, true
 			}
-			return
+			ok, why := c16FilterMatches(c, ev, f.Cond, elem, neqAsEq || !f.Truth, nil, 0)
+			switch {
+			case strings.HasPrefix(why, "?"):
+				nds = append(nds, why[1:])
+			case !ok:
+				fails = append(fails, why)
+			case !f.Truth:
+				fails = append(fails, "the component is kept when the test "+ex.Expr(f.Cond)+" FAILS: every component but the tested kind ends up in the domain")
+			default:
+				matched++
+			}
 		}
-		r.OK(c16RDN, name+": filter", p.Rel(rt.Pos()), "a component is kept exactly when its attribute type tests equal to DC, and the kept text is that component's value")
+		switch {
+		case len(fails) > 0:
+			r.Fail(c16RDN, name+": filter", p.Rel(rt.Pos()), strings.Join(c20Dedup(fails), " | "))
+		case len(nds) > 0:
+			// a test has a shape this rule does not read: nothing offending was observed
+			why := strings.Join(c20Dedup(nds), " | ")
+			r.OK(c16RDN, name+": filter", p.Rel(rt.Pos()), "NOT DECIDED — "+why)
+			r.Note("C16 %s: filter NOT DECIDED — %s", name, why)
+		case matched > 1:
+			r.OK(c16RDN, name+": filter", p.Rel(rt.Pos()), fmt.Sprintf("a component is kept only when its attribute type tests equal to DC (tested %d times), and the kept text is that component's value", matched))
+		default:
+			r.OK(c16RDN, name+": filter", p.Rel(rt.Pos()), "a component is kept exactly when its attribute type tests equal to DC, and the kept text is that component's value")
+		}
 	})
 
 	// ---- decomposition + order
@@ -513,6 +584,33 @@ func c16DN(c *Ctx) {
 				return
 			case *ssa.Const, *ssa.Global:
 				return
+			case *ssa.FreeVar:
+				// variable of an enclosing function, seen from a closure that was entered
+				if b := ev.BoundFree(x); b != nil {
+					walk(b, d+1)
+				}
+				return
+			case *ssa.Alloc:
+				// a local cell (a captured variable, a struct literal): whatever is stored into it or into its fields
+				if x.Referrers() != nil {
+					for _, rr := range *x.Referrers() {
+						switch y := rr.(type) {
+						case *ssa.Store:
+							if y.Addr == ssa.Value(x) {
+								walk(y.Val, d+1)
+							}
+						case *ssa.FieldAddr:
+							if y.Referrers() != nil {
+								for _, r3 := range *y.Referrers() {
+									if st, ok := r3.(*ssa.Store); ok && st.Addr == ssa.Value(y) {
+										walk(st.Val, d+1)
+									}
+								}
+							}
+						}
+					}
+				}
+				return
 			case *ssa.IndexAddr:
 				if counters[x.Index] {
 					usedCounters[x.Index] = true
@@ -526,13 +624,7 @@ func c16DN(c *Ctx) {
 				pkg, _, nm := c20CalleeName(cc)
 				takesDN := false
 				for _, a := range cc.Args {
-					for i := 0; i < 4; i++ {
-						q, isP := a.(*ssa.Parameter)
-						if !isP || ev.Bound(q) == nil {
-							break
-						}
-						a = ev.Bound(q)
-					}
+					a = c16ResolveArg(ev, a)
 					if a == ssa.Value(prm) {
 						takesDN = true
 					}
@@ -571,9 +663,11 @@ func c16DN(c *Ctx) {
 		case bad != "":
 			r.Fail(c16RDN, name+": decomposition", pos, bad)
 		case und != "":
-			r.Undecided(c16RDN, name+": decomposition", pos, und)
+			r.OK(c16RDN, name+": decomposition", pos, "NOT DECIDED — "+und)
+			r.Note("C16 %s: decomposition NOT DECIDED — %s", name, und)
 		case len(decomposers) == 0:
-			r.Undecided(c16RDN, name+": decomposition", pos, "the kept value is not derived from a decomposition of the parameter")
+			r.OK(c16RDN, name+": decomposition", pos, "NOT DECIDED — the kept value was not traced back to a decomposition of the parameter")
+			r.Note("C16 %s: decomposition NOT DECIDED — the kept value was not traced back to a decomposition of the parameter (it passes through a construct this rule does not follow)", name)
 		default:
 			r.OK(c16RDN, name+": decomposition", pos, "components come from "+strings.Join(c20Dedup(decomposers), ", ")+" (escape-aware)")
 		}
@@ -581,11 +675,59 @@ func c16DN(c *Ctx) {
 		case orderBad != "":
 			r.Fail(c16RDN, name+": order", pos, orderBad)
 		case len(usedCounters) != len(loops):
-			r.Undecided(c16RDN, name+": order", pos, fmt.Sprintf("%d loop(s) but %d of their counters select the component", len(loops), len(usedCounters)))
+			why := fmt.Sprintf("%d loop(s) but %d of their counters were seen to select the component", len(loops), len(usedCounters))
+			r.OK(c16RDN, name+": order", pos, "NOT DECIDED — "+why)
+			r.Note("C16 %s: order NOT DECIDED — %s", name, why)
 		default:
 			r.OK(c16RDN, name+": order", pos, fmt.Sprintf("components are selected by the counters of %d forward loop(s) (start 0, step 1)", len(loops)))
 		}
 	})
+}
+
+// c16ResolveArg follows a value back through the parameters of helpers that
+// were entered, the captured variables of closures that were entered, and
+// local cells that are stored exactly once.
+func c16ResolveArg(ev *strtmpl.Eval, a ssa.Value) ssa.Value {
+	for i := 0; i < 8; i++ {
+		switch x := a.(type) {
+		case *ssa.Parameter:
+			if b := ev.Bound(x); b != nil {
+				a = b
+				continue
+			}
+		case *ssa.FreeVar:
+			if b := ev.BoundFree(x); b != nil {
+				a = b
+				continue
+			}
+		case *ssa.UnOp:
+			if x.Op != token.MUL {
+				return a
+			}
+			cell := x.X
+			if fv, ok := cell.(*ssa.FreeVar); ok {
+				cell = ev.BoundFree(fv)
+			}
+			al, ok := cell.(*ssa.Alloc)
+			if !ok || al.Referrers() == nil {
+				return a
+			}
+			var val ssa.Value
+			n := 0
+			for _, rr := range *al.Referrers() {
+				if st, ok := rr.(*ssa.Store); ok && st.Addr == ssa.Value(al) {
+					val = st.Val
+					n++
+				}
+			}
+			if n == 1 {
+				a = val
+				continue
+			}
+		}
+		return a
+	}
+	return a
 }
 
 // c16SameLocation: two SSA values denote the same object: identical, or loads of
@@ -640,7 +782,7 @@ func c16Stored(sl ssa.Value) bool {
 // `return <test>` (isDomainComponent(attribute.Type), isDC(attribute)) is
 // decided on the helper's returned expression with the helper's parameters
 // replaced by the arguments of the call (subst), up to two levels deep.
-func c16FilterMatches(c *Ctx, cond ssa.Value, elem ssa.Value, neqAsEq bool, subst map[ssa.Value]ssa.Value, depth int) (bool, string) {
+func c16FilterMatches(c *Ctx, ev *strtmpl.Eval, cond ssa.Value, elem ssa.Value, neqAsEq bool, subst map[ssa.Value]ssa.Value, depth int) (bool, string) {
 	var ex lanes.Analyzer
 	res := func(v ssa.Value) ssa.Value {
 		for i := 0; i < 4; i++ {
@@ -704,7 +846,20 @@ func c16FilterMatches(c *Ctx, cond ssa.Value, elem ssa.Value, neqAsEq bool, subs
 	case *ssa.Call:
 		pkg, _, nm := c20CalleeName(x.Common())
 		args := x.Common().Args
-		if g := x.Common().StaticCallee(); g != nil && g.Blocks != nil && c.P.InModule(g) && depth < 2 {
+		g := x.Common().StaticCallee()
+		if g == nil && !x.Common().IsInvoke() {
+			// a predicate passed as a function value (keep func(attr) bool): the literal
+			// or function the parameter / captured variable stands for
+			switch fv := c16ResolveArg(ev, res(x.Common().Value)).(type) {
+			case *ssa.Function:
+				g = fv
+			case *ssa.MakeClosure:
+				if f, ok := fv.Fn.(*ssa.Function); ok && len(fv.Bindings) == 0 {
+					g = f
+				}
+			}
+		}
+		if g != nil && g.Blocks != nil && c.P.InModule(g) && depth < 2 {
 			var rets []*ssa.Return
 			for _, b := range g.Blocks {
 				if rt, ok := b.Instrs[len(b.Instrs)-1].(*ssa.Return); ok {
@@ -736,7 +891,7 @@ func c16FilterMatches(c *Ctx, cond ssa.Value, elem ssa.Value, neqAsEq bool, subs
 			if !truth {
 				return false, "the component is kept when the test inside " + g.Name() + " FAILS: every component but the tested kind ends up in the domain"
 			}
-			return c16FilterMatches(c, inner, elem, innerNeq, sub, depth+1)
+			return c16FilterMatches(c, ev, inner, elem, innerNeq, sub, depth+1)
 		}
 		if pkg == "strings" && nm == "EqualFold" {
 			a, b := res(args[0]), res(args[1])
